@@ -586,6 +586,19 @@ func (f *frame) checkInvariants(li *loopInfo, h *ssa.BasicBlock, predIdx int, gu
 			vc.oblige("invariant-"+when, anchor, guard, t, pos, c.Text)
 		}
 	}
+	if f.top && f.spec != nil && len(f.spec.Preserves) > 0 && f.entry != nil {
+		// the function's declared-preserved locations are an implicit invariant of every loop
+		penv := f.baseEnv(f.entry)
+		for pi, p := range vc.assignPats(penv, f.spec.Preserves) {
+			hn, ho := vc.heapOf(st, p.sort), vc.heapOf(f.entry, p.sort)
+			if hn == ho {
+				continue
+			}
+			sk := vc.fresh("pres_l", "Loc")
+			goal := Implies(And(p.matchCond(sk), App("<=", App("rt", sk), f.entry.Top)), Eq(App("select", hn, sk), App("select", ho, sk)))
+			vc.oblige("invariant-"+when, fmt.Sprintf("loop%d.preserves.%d", li.ordinal, pi+1), guard, goal, "", "declared-preserved locations are unchanged at the loop head")
+		}
+	}
 	if when == "preserved" && hd != nil && hd.measure != "" && f.top {
 		env := f.loopEnv(li, h, predIdx, st)
 		m := vc.evalSpec(env, li.spec.Decreases.Expr)
@@ -625,6 +638,16 @@ func (f *frame) havocLoop(li *loopInfo, pre *State, guard string, entryIdx int) 
 	vc.assert(App(">=", tp, pre.Top))
 	st.Top = tp
 	vc.assertHeapWF(st, pats)
+	if f.top && f.spec != nil && len(f.spec.Preserves) > 0 && f.entry != nil {
+		penv := f.baseEnv(f.entry)
+		for _, p := range vc.assignPats(penv, f.spec.Preserves) {
+			hn, ho := vc.heapOf(st, p.sort), vc.heapOf(f.entry, p.sort)
+			if hn == ho {
+				continue
+			}
+			vc.assert(fmt.Sprintf("(forall ((l! Loc)) (! (=> (and %s (<= (rt l!) %s)) (= (select %s l!) (select %s l!))) :pattern ((select %s l!))))", p.matchCond("l!"), f.entry.Top, hn, ho, hn))
+		}
+	}
 	return st
 }
 
